@@ -31,7 +31,7 @@ use std::{
 use bitvec::{order::{Lsb0, Msb0}, vec::BitVec};
 use dashmap::{DashMap, DashSet};
 use smallvec::SmallVec;
-use more::{Big, EnSkip, GenTupSkip, HPair, NamedSkipEnds, Pair, TupSkipMid, TupSkipMixed};
+use more::{Big, EnSkip, GenTupSkip, HPair, NamedSkipEnds, Pair, TupSkipMid, TupSkipMixed, Wide};
 
 use qbice::{Decode, Encode, StableHash};
 use qbice_serialize::{Decoder, Encoder, Plugin, PostcardDecoder, PostcardEncoder};
@@ -134,6 +134,9 @@ struct SharedItem {
     sized: Vec<Interned<Named>>,
     unsized_: Vec<Interned<str>>,
     nested: Vec<(Interned<str>, Option<Interned<Named>>)>,
+    /// the same text interned as `String` and as `str`: two types, one
+    /// content hash (seeded changes C07-4 / C12-4 / C15-3)
+    twins: Vec<(Interned<String>, Interned<str>)>,
 }
 
 impl SharedItem {
@@ -146,6 +149,18 @@ impl SharedItem {
             nested: (0..r.range(0, 4))
                 .map(|_| (i.intern_unsized::<str, _>(r.pick(&spool).clone()), r.chance(1, 2).then(|| i.intern(r.pick(&pool).clone()))))
                 .collect(),
+            twins: (0..r.range(0, 2))
+                .map(|_| {
+                    let s = r.pick(&spool).clone();
+                    if r.chance(1, 2) {
+                        let a = i.intern(s.clone());
+                        (a, i.intern_unsized::<str, _>(s))
+                    } else {
+                        let b = i.intern_unsized::<str, _>(s.clone());
+                        (i.intern(s), b)
+                    }
+                })
+                .collect(),
         })
     }
 }
@@ -154,17 +169,23 @@ impl Item for SharedItem {
     fn enc(&self, e: &mut PostcardEncoder<SimWriter>, p: &Plugin) -> io::Result<()> {
         e.encode(&self.sized, p)?;
         e.encode(&self.unsized_, p)?;
-        e.encode(&self.nested, p)
+        e.encode(&self.nested, p)?;
+        e.encode(&self.twins, p)
     }
     fn enc_plain(&self, e: &mut PostcardEncoder<Vec<u8>>, p: &Plugin) -> io::Result<()> {
         e.encode(&self.sized, p)?;
         e.encode(&self.unsized_, p)?;
-        e.encode(&self.nested, p)
+        e.encode(&self.nested, p)?;
+        e.encode(&self.twins, p)
     }
     fn dec_cmp(&self, d: &mut PostcardDecoder<SimReader>, p: &Plugin) -> Result<(), String> {
         let a: Vec<Interned<Named>> = d.decode(p).map_err(|e| format!("decode failed: {e}"))?;
         let b: Vec<Interned<str>> = d.decode(p).map_err(|e| format!("decode failed: {e}"))?;
         let c: Vec<(Interned<str>, Option<Interned<Named>>)> = d.decode(p).map_err(|e| format!("decode failed: {e}"))?;
+        let t: Vec<(Interned<String>, Interned<str>)> = d.decode(p).map_err(|e| format!("decode failed: {e}"))?;
+        if t.len() != self.twins.len() || t.iter().zip(&self.twins).any(|(x, y)| *x.0 != *y.0 || *x.1 != *y.1) {
+            return Err("interned String / str values of equal content changed in the round trip".into());
+        }
         if a.len() != self.sized.len() || a.iter().zip(&self.sized).any(|(x, y)| **x != **y) {
             return Err("interned sized values changed in the round trip".into());
         }
@@ -243,6 +264,7 @@ c12_types!(
     // optional features of the serializer
     SmallVec<[u8; 4]>, SmallVec<[String; 2]>, Vec<SmallVec<[u16; 1]>>,
     BitVec<u8, Lsb0>, BitVec<u8, Msb0>, BitVec<usize, Lsb0>, BitVec<u32, Msb0>, (BitVec<usize, Lsb0>, u8),
+    Wide, Vec<Wide>, (Wide, u8),
 );
 
 #[derive(Clone, Debug, Serialize, Deserialize)]
@@ -314,6 +336,36 @@ fn c12_run(sc: &C12Scenario) -> Out {
         }
     }
     let rd = dec.into_inner();
+    // the same bytes decoded where none of the interned values is alive (a
+    // new process): a fresh interner
+    {
+        let bytes = rd.data.clone();
+        let items_ref = &items;
+        let k = sc.rk;
+        let eintr = sc.eintr;
+        let frng = fault.split(3);
+        let res = std::panic::catch_unwind(std::panic::AssertUnwindSafe(|| -> Result<(), String> {
+            let mut plugin2 = Plugin::default();
+            plugin2.insert(Interner::new(4, SeededStableHasherBuilder::<Sip128Hasher>::new(11)));
+            let mut dec2 = PostcardDecoder::new(SimReader { data: bytes, pos: 0, rng: frng, k, eintr, interrupts: 0, short: 0 });
+            for (n, it) in items_ref.iter().enumerate() {
+                it.dec_cmp(&mut dec2, &plugin2).map_err(|m| format!("value {n}: {m}"))?;
+            }
+            Ok(())
+        }));
+        let err = match res {
+            Ok(Ok(())) => None,
+            Ok(Err(m)) => Some(m),
+            Err(p) => Some(format!(
+                "panic: {}",
+                p.downcast_ref::<&str>().map(|s| (*s).to_string()).or_else(|| p.downcast_ref::<String>().cloned()).unwrap_or_default()
+            )),
+        };
+        if let Some(m) = err {
+            out.failure = Some(("roundtrip_mismatch".into(), format!("decoding [{}] with a fresh interner (as a new process would): {m}", out.detail)));
+            return out;
+        }
+    }
     if rd.data[rd.pos..] != SENTINEL {
         out.failure = Some((
             "codec_consumption".into(),
@@ -500,7 +552,7 @@ impl<K: Rebuild + Eq + std::hash::Hash> Rebuild for HS<K> {
 }
 
 rebuild_dup!(
-    PathBuf, OsString, CString, Duration, NonZeroU32, NonZeroI128, Big, PhantomData<u8>, Box<str>, Arc<str>, AtomicU32,
+    Wide, PathBuf, OsString, CString, Duration, NonZeroU32, NonZeroI128, Big, PhantomData<u8>, Box<str>, Arc<str>, AtomicU32,
     RangeFull
 );
 impl<T: Rebuild> Rebuild for VecDeque<T> {
@@ -742,6 +794,7 @@ c13_types!(
     (HPair<PathBuf>, false, c13_hash),
     (SmallVec<[u8; 4]>, false, c13_hash), (HPair<flexstr::SharedStr>, false, c13_hash), (flexstr::SharedStr, false, c13_hash),
     (BitVec<u8, Lsb0>, false, c13_hash), (BitVec<usize, Msb0>, false, c13_hash),
+    (Wide, false, c13_one), (Vec<Wide>, false, c13_one), ((Wide, Wide), false, c13_one), (HM<Wide, u8>, true, c13_hash),
 );
 
 #[derive(Clone, Debug, Serialize, Deserialize)]
@@ -813,8 +866,13 @@ fn batch(args: &[String]) {
     let mut faults: BTreeMap<String, u64> = BTreeMap::new();
     let mut samples = Vec::new();
     let mut failures = 0u64;
+    let mut emitted = 0u64;
     let mut emit_failure = |rf: ReplayFile| {
-        writeln!(stdout.lock(), "{}", serde_json::json!({"type": "failure", "i": 0, "replay": rf})).unwrap();
+        // a broken tree can make every run fail: a sample is enough
+        emitted += 1;
+        if emitted <= 60 {
+            writeln!(stdout.lock(), "{}", serde_json::json!({"type": "failure", "i": 0, "replay": rf})).unwrap();
+        }
     };
     if worker == 0 && prop == "C12" {
         let (n, bad) = c12_exhaustive16();
